@@ -224,7 +224,10 @@ impl PqFold for SortingInference<'_> {
                             .anchor
                             .relation_instances
                             .iter_mut()
-                            .find(|(_riid, rel_inst)| rel_inst.table_ref.source == cte.tid)
+                            .filter(|(_riid, rel_inst)| rel_inst.table_ref.source == cte.tid)
+                            // a CTE may be read by several instances; the map has no
+                            // order, so take the one declared first
+                            .min_by_key(|(riid, _rel_inst)| **riid)
                             .unwrap();
 
                         cid_redirects_to_add
